@@ -2,9 +2,11 @@ package scen
 
 import (
 	"fmt"
+	"strings"
 	"time"
 
 	erpc "github.com/henrylee2cn/erpc/v6"
+	"github.com/henrylee2cn/erpc/v6/plugin/secure"
 
 	"verif/shim/vnet"
 	"verif/shim/vsched"
@@ -16,7 +18,7 @@ func init() { Sched["c13"] = c13 }
 // c13: a redial-enabled client session survives connection loss.
 //
 //	budget: RedialTimes (0, n, -1)
-//	fault : idle | awaiting | write | twice
+//	fault : idle | rclose | awaiting | write | both | both2
 //	down  : number of dial attempts refused after the loss
 func c13(p Params) func() {
 	budget := p.Int("budget", 1)
@@ -43,10 +45,10 @@ func c13(p Params) func() {
 			r := "r:" + *a
 			return &r, nil
 		})
-		vsched.SpawnDaemon("acceptloop", func() { erpc.VerifServeListener(srv, lis) })
+		vsched.Spawn("acceptloop", func() { erpc.VerifServeListener(srv, lis) })
 		var trace []string
 		rec := NewRec("crec", &trace)
-		rec.Only = map[string]bool{"postdial": true, "postdial_redial": true}
+		rec.Only = map[string]bool{"postdial": true, "postdial_redial": true, "prewritecall": true, "postwritecall": true, "postreadreplyheader": true}
 		cli := erpc.NewPeer(erpc.PeerConfig{DefaultBodyCodec: "json", RedialTimes: int32(budget), RedialInterval: time.Millisecond}, rec)
 		sess, st := cli.Dial(addr)
 		if !st.OK() {
@@ -127,6 +129,12 @@ func c13(p Params) func() {
 			breaker := world.Go("breaker", func() { sc.Break() })
 			vsched.Join(caller)
 			vsched.Join(breaker)
+		case "both2":
+			// as "both", with the loss already delivered when the caller starts: only the reader's
+			// disconnect handling and the caller's write race (a smaller space, explored deeper)
+			serverConn().Break()
+			caller := world.Go("caller", func() { inflight = sess.Call(h, "b", &inflightRes) })
+			vsched.Join(caller)
 		}
 		vsched.Quiesce()
 		attempts := vnet.DialCount(addr) - dialsBefore
@@ -148,11 +156,22 @@ func c13(p Params) func() {
 			if !sess.Health() {
 				vsched.Failf("session is not healthy after the server became reachable again (%d dial attempts) | %s", attempts, ctxt)
 			}
-			if sess.ID() != wantID {
-				vsched.Failf("session id changed from %q to %q across the redial | %s", wantID, sess.ID(), ctxt)
+			if setid {
+				if sess.ID() != wantID {
+					vsched.Failf("user-assigned session id changed from %q to %q across the redial | %s", wantID, sess.ID(), ctxt)
+				}
+			} else if old := wantID; sess.ID() != old {
+				// a default id follows the local address of the new connection; the old key must be gone
+				wantID = sess.ID()
+				if _, ok := cli.GetSession(old); ok {
+					vsched.Failf("after the reconnect the session is still indexed under its previous default id %q (now %q) | %s", old, wantID, ctxt)
+				}
 			}
 			if got, ok := cli.GetSession(wantID); !ok || got != sess {
 				vsched.Failf("reconnected session is not indexed under its id | %s", ctxt)
+			}
+			if n, ids := cli.CountSession(), sessionsOf(cli); n != 1 || len(ids) != 1 {
+				vsched.Failf("after the reconnect the client's index lists %d sessions (%v), exactly one is live | %s", n, ids, ctxt)
 			}
 			if rec.Count["postdial_redial"] < 1 {
 				vsched.Failf("PostDial with isRedial=true did not run | %s", ctxt)
@@ -169,6 +188,9 @@ func c13(p Params) func() {
 			if _, ok := cli.GetSession(wantID); ok {
 				vsched.Failf("redial budget exhausted but the session is still indexed | %s", ctxt)
 			}
+			if n, ids := cli.CountSession(), sessionsOf(cli); n != 0 || len(ids) != 0 {
+				vsched.Failf("redial budget exhausted but the client's index still lists %d sessions (%v) | %s", n, ids, ctxt)
+			}
 			before := vnet.DialCount(addr)
 			var r string
 			lst := sess.Call(h, "c", &r).Status()
@@ -184,9 +206,130 @@ func c13(p Params) func() {
 			}
 			world.Counter("exhausted")
 		}
+		// hooks fire at most once per stage and message, also when a write is retried after a redial
+		seenHook := map[string]bool{}
+		for _, t := range trace {
+			if strings.Contains(t, "postdial") {
+				continue
+			}
+			if seenHook[t] {
+				vsched.Failf("hook fired twice for one message: %s | %s", t, ctxt)
+			}
+			seenHook[t] = true
+		}
 		if budget >= 0 && attempts > 3*round {
 			vsched.Failf("%d dial attempts after one loss with a budget of %d | %s", attempts, budget, ctxt)
 		}
 		vsched.Logf("%s attempts=%d", ctxt, attempts)
+	}
+}
+
+func init() { Sched["c13_revive"] = c13Revive }
+
+// c13Revive: the redial budget is exhausted while the server is down; then the server comes back and a later
+// operation (call or push, optionally through the secure plugin) redials from the write path and is re-sent.
+// Oracles: the operation completes; every hook fires at most once per stage and message; an OK operation was
+// delivered exactly once with the original argument.
+func c13Revive(p Params) func() {
+	budget := p.Int("budget", 1)
+	op := p.Get("op", "call")
+	sec := p.Get("secure", "0") == "1"
+	return func() {
+		begin()
+		vsched.Tag("op=" + op)
+		const addr = "10.0.0.1:9000"
+		lis := vnet.Listen(addr)
+		var srvPlugins, cliPlugins []erpc.Plugin
+		if sec {
+			srvPlugins = append(srvPlugins, secure.NewPlugin(9001, "0123456789abcdef"))
+			cliPlugins = append(cliPlugins, secure.NewPlugin(9002, "0123456789abcdef"))
+		}
+		var gotCalls, gotPushes []string
+		srv := world.NewPeer("json", srvPlugins...)
+		h := srv.RouteCallFunc(func(ctx erpc.CallCtx, a *string) (*string, *erpc.Status) {
+			gotCalls = append(gotCalls, *a)
+			r := "r:" + *a
+			return &r, nil
+		})
+		hp := srv.RoutePushFunc(func(ctx erpc.PushCtx, a *string) *erpc.Status {
+			gotPushes = append(gotPushes, *a)
+			return nil
+		})
+		vsched.Spawn("acceptloop", func() { erpc.VerifServeListener(srv, lis) })
+		var trace []string
+		rec := NewRec("crec", &trace)
+		rec.Only = map[string]bool{"prewritecall": true, "postwritecall": true, "prewritepush": true, "postwritepush": true, "postreadreplyheader": true, "postreadreplybody": true}
+		cliPlugins = append(cliPlugins, rec)
+		cli := erpc.NewPeer(erpc.PeerConfig{DefaultBodyCodec: "json", RedialTimes: int32(budget), RedialInterval: time.Millisecond}, cliPlugins...)
+		sess, st := cli.Dial(addr)
+		if !st.OK() {
+			vsched.Failf("initial dial failed: %v", st)
+		}
+		var r0 string
+		if st := sess.Call(h, "warm", &r0).Status(); !st.OK() {
+			vsched.Failf("warm-up call failed: %s", world.StatStr(st))
+		}
+		// the server goes away; every redial attempt is refused until the budget is exhausted
+		vnet.DialHook = func(string, int) bool { return true }
+		for _, x := range vnet.Conns() {
+			if x.LocalAddr().String() == addr && !x.IsClosed() {
+				x.Break()
+			}
+		}
+		vsched.Quiesce()
+		if !closedNotify(sess) {
+			vsched.Failf("redial budget exhausted but the close notification has not fired")
+		}
+		// the server is reachable again
+		vnet.DialHook = nil
+		trace = nil
+		gotCalls, gotPushes = nil, nil
+		var settings []erpc.MessageSetting
+		if sec {
+			settings = append(settings, secure.WithSecureMeta())
+		}
+		arg := "payload-1234567890"
+		var opStat *erpc.Status
+		var res string
+		if op == "push" {
+			opStat = sess.Push(hp, &arg, settings...)
+		} else {
+			opStat = sess.Call(h, &arg, &res, settings...).Status()
+		}
+		vsched.Quiesce()
+		if opStat.OK() {
+			if op == "push" {
+				if len(gotPushes) != 1 || gotPushes[0] != arg {
+					vsched.Failf("push reported OK after the redial, but the handler received %q (want exactly one delivery of %q)", gotPushes, arg)
+				}
+			} else {
+				if res != "r:"+arg || len(gotCalls) != 1 || gotCalls[0] != arg {
+					vsched.Failf("call reported OK after the redial, but result %q / handler input %q do not match the argument %q", res, gotCalls, arg)
+				}
+			}
+			if !sess.Health() {
+				vsched.Failf("operation succeeded after the redial but the session is not healthy")
+			}
+			if got, ok := cli.GetSession(sess.ID()); !ok || got != sess || cli.CountSession() != 1 {
+				vsched.Failf("operation succeeded after the redial but the index does not list exactly this session (count %d)", cli.CountSession())
+			}
+			world.Counter("revived")
+		} else {
+			if !erpc.IsConnError(opStat) && opStat.Code() != erpc.CodeWriteFailed {
+				vsched.Failf("operation after the budget was exhausted failed with %s, want a connection error", world.StatStr(opStat))
+			}
+			if len(gotCalls)+len(gotPushes) != 0 {
+				vsched.Failf("operation reported %s but was delivered to a handler", world.StatStr(opStat))
+			}
+			world.Counter("failed")
+		}
+		seen := map[string]bool{}
+		for _, t := range trace {
+			if seen[t] {
+				vsched.Failf("hook fired twice for one message: %s | trace %v", t, trace)
+			}
+			seen[t] = true
+		}
+		vsched.Logf("op=%s st=%s", op, statClass(opStat))
 	}
 }
